@@ -111,7 +111,7 @@ class Fixture:
         out = [('relative', q(rel)), ('dot', './' + q(rel)), ('subdotdot', 'sub/../' + q(rel)),
                ('chain', '../' + q(self.sandname) + '/' + q(rel)),
                ('absolute', t), ('file3', 'file://' + q(t)), ('file_localhost', 'file://localhost' + q(t)),
-               ('FILE_upper', 'FILE://' + q(t)),
+               ('FILE_upper', 'FILE://' + q(t)), ('slashes3', '//' + t), ('slashes4', '///' + t), ('file_slashes5', 'file://///' + q(t).lstrip('/')),
                ('pct_dots', q(rel).replace('..', '%2E%2E') if '..' in rel else './%2E/' + q(rel)),
                ('pct_slash', q(rel).replace('/', '%2F') if '/' in rel else None),
                ('backslash', rel.replace('/', '\\') if '/' in rel else None)]
